@@ -33,9 +33,21 @@ def comps(obj):
     return [x.expr for x in d.items]
 
 
+def state_attrs(o: ObjV):
+    """Storage attributes that carry the object's observable state: `_k` backing a public property k that has a setter.
+    Anything else an instance holds (memoised values, flags derived from the state) is not metadata: it is covered by the
+    derived-state coherence rule (pbverif/coherence.py), not by metadata comparisons."""
+    out = set()
+    for k in o.attrs:
+        pr = o.cls.find_property(k.lstrip("_"))
+        if k == "_data" or (k.startswith("_") and pr is not None and pr.get("set") is not None):
+            out.add(k)
+    return out
+
+
 def meta_same(a: ObjV, b: ObjV, skip=("_data",)):
     bad = []
-    for k in set(a.attrs) | set(b.attrs):
+    for k in state_attrs(a) | state_attrs(b):
         if k in skip:
             continue
         va, vb = a.attrs.get(k), b.attrs.get(k)
